@@ -10,6 +10,7 @@ package c05
 import (
 	"fmt"
 	"math"
+	"runtime"
 
 	"github.com/flowmatters/openwater-core/data"
 	"github.com/flowmatters/openwater-core/sim"
@@ -26,22 +27,25 @@ type kase struct {
 	N     int
 	bound int
 	P, B  int // parameter sets and input blocks (cyclic when fewer than cells)
+	procs int // GOMAXPROCS seen by Run (0 = the worker's own, 1): results must not depend on it
 }
 
 const T = 3
 
-func groupFor(t tables.Table) []int {
+// groupsFor: parameter vectors that can share one Run call (same state layout); Lag once with a lag shorter and once
+// with a lag longer than the series (different branches of the kernel)
+func groupsFor(t tables.Table) [][]int {
 	switch t.Model {
 	case "GR4J":
-		return []int{1, 5}
+		return [][]int{{1, 5}}
 	case "Lag":
-		return []int{2}
+		return [][]int{{2}, {4}}
 	}
 	all := make([]int, len(t.Params))
 	for i := range all {
 		all[i] = i
 	}
-	return all
+	return [][]int{all}
 }
 
 func (k kase) cellParams(c int) []float64 { return k.tbl.Params[k.group[c%len(k.group)]] }
@@ -114,7 +118,7 @@ func run(k kase, r *vf.Rec) {
 	}
 	var w *world
 	h := &sched.Harness{
-		Name:  fmt.Sprintf("%s/N=%d,P=%d,B=%d", model, k.N, k.P, k.B),
+		Name:  fmt.Sprintf("%s/N=%d,P=%d,B=%d,params=%v,gomaxprocs=%d", model, k.N, k.P, k.B, k.group, k.procs),
 		Reset: func() { w = k.build() },
 		Body:  func() { w.m.Run(w.in, w.st, w.out) },
 		Observe: func(res vrt.Result) sched.Outcome {
@@ -141,6 +145,11 @@ func run(k kase, r *vf.Rec) {
 		},
 	}
 	ex := &sched.Explorer{Bound: k.bound, MaxExec: 200000}
+	if k.procs > 0 {
+		// only the value reported by runtime.GOMAXPROCS changes: the controlled scheduler still runs one logical thread at a time
+		old := runtime.GOMAXPROCS(k.procs)
+		defer runtime.GOMAXPROCS(old)
+	}
 	st := ex.Explore(h)
 	r.Count("schedules", int64(st.Executions))
 	r.Count("scheduling_points", int64(st.Points))
@@ -167,7 +176,7 @@ func (e *enum) N() int64               { return int64(len(e.cases)) }
 func (e *enum) Run(i int64, r *vf.Rec) { run(e.cases[i], r) }
 func (e *enum) Describe(i int64) interface{} {
 	k := e.cases[i]
-	return map[string]interface{}{"model": k.tbl.Model, "cells": k.N, "parameter_sets": k.P, "input_blocks": k.B, "preemption_bound": k.bound, "timesteps": T}
+	return map[string]interface{}{"model": k.tbl.Model, "parameter_vectors": k.group, "cells": k.N, "parameter_sets": k.P, "input_blocks": k.B, "gomaxprocs": k.procs, "preemption_bound": k.bound, "timesteps": T}
 }
 func (e *enum) CrashSig(i int64, tail string) (string, string) {
 	return "C05/Run/" + e.cases[i].tbl.Model + "/crash", "the schedule exploration crashed the process"
@@ -176,12 +185,16 @@ func (e *enum) CrashSig(i int64, tail string) (string, string) {
 func build(tier string) *enum {
 	e := &enum{}
 	for _, t := range tables.All() {
-		g := groupFor(t)
-		e.cases = append(e.cases, kase{t, g, 2, -1, 2, 2}, kase{t, g, 2, -1, 1, 1})
-		if tier == "thorough" {
-			e.cases = append(e.cases, kase{t, g, 3, 3, 3, 3}, kase{t, g, 3, 3, 2, 1}, kase{t, g, 4, 2, 3, 2})
-		} else {
-			e.cases = append(e.cases, kase{t, g, 3, 1, 2, 1})
+		for _, g := range groupsFor(t) {
+			e.cases = append(e.cases, kase{t, g, 2, -1, 2, 2, 0}, kase{t, g, 2, -1, 1, 1, 0})
+			if tier == "thorough" {
+				e.cases = append(e.cases, kase{t, g, 3, 3, 3, 3, 0}, kase{t, g, 3, 3, 2, 1, 0}, kase{t, g, 4, 2, 3, 2, 0})
+				e.cases = append(e.cases, kase{t, g, 4, 0, 2, 2, 3}, kase{t, g, 3, 1, 3, 1, 2})
+			} else {
+				e.cases = append(e.cases, kase{t, g, 3, 1, 2, 1, 0})
+				// more cells than processors: (cells, GOMAXPROCS) = (3,2), no preemption beyond the forced switches
+				e.cases = append(e.cases, kase{t, g, 3, 0, 3, 1, 2})
+			}
 		}
 	}
 	return e
@@ -190,7 +203,7 @@ func build(tier string) *enum {
 func Spec() *vf.Check {
 	return &vf.Check{
 		ID: "C05", Level: "model_checking", BlockSize: 1, HangSeconds: 3600,
-		Rule: "for every catalogued model and N = 2 cells (all interleavings; one parameter set / input block per cell, and a single shared one), N = 3 (quick: <= 1 preemption, 2 parameter sets, 1 shared input block; thorough: <= 3 preemptions, both layouts) and N = 4 (thorough, <= 2 preemptions, 3 sets / 2 blocks): the rewritten generated Run executes under the controlled scheduler with scheduling points at spawn, channel send/receive and thread exit; the binary is built with -race and the scheduler's hand-offs are hidden from the race detector, so every explored schedule is checked for unsynchronised conflicting accesses; outputs and final states of every schedule are compared bit-for-bit with the sequential cell-by-cell result; deadlocks are reported. " +
+		Rule: "for every catalogued model and N = 2 cells (all interleavings; one parameter set / input block per cell, and a single shared one), N = 3 (quick: <= 1 preemption, 2 parameter sets, 1 shared input block; thorough: <= 3 preemptions, both layouts) and N = 4 (thorough, <= 2 preemptions, 3 sets / 2 blocks); with GOMAXPROCS set to fewer processors than cells: (cells, processors) = (3,2) (quick: every order of the forced switches, no preemptions; thorough: <= 1 preemption, and (4,3) without preemptions): the rewritten generated Run executes under the controlled scheduler with scheduling points at spawn, channel send/receive and thread exit; the binary is built with -race and the scheduler's hand-offs are hidden from the race detector, so every explored schedule is checked for unsynchronised conflicting accesses; outputs and final states of every schedule are compared bit-for-bit with the sequential cell-by-cell result; deadlocks are reported. " +
 			"The ow-sim generation part reuses the C07 harness (see C07).",
 		Assumptions: []string{"the cooperative scheduler runs one logical thread at a time (sequential consistency between scheduling points); weak-memory reorderings are not modelled",
 			"the race detector keeps a bounded access history per memory word; an unsynchronised pair separated by many later accesses to the same word can be missed within one schedule"},
